@@ -6,6 +6,7 @@
 import DDS.Proofs.GenPagBase
 import DDS.Proofs.GenPagRead
 import DDS.Proofs.GenPagIter
+import DDS.Proofs.GenPagAdd
 
 namespace DDS.GenPag
 end DDS.GenPag
